@@ -32,6 +32,7 @@ package response
 //@   ensures #no-marker len(trimSpace(old(r.RawResult))) == 0 || trimSpace(old(r.RawResult))[0] != '#' ==> result != nil
 //@   ensures #result-is-payload result == nil ==> r.Result == payload11
 //@   ensures #provenance result == nil ==> partOf(r.Result, trimSpace(old(r.RawResult)))
+//@   at return assert #a-reply-without-the-end-of-chunks-marker-is-a-parse-error result == nil ==> 1 <= cursor && cursor < len(d) && d[cursor] == '#' && d[cursor-1] == '#'
 //@   at call! append#1 assert #chunk-size-is-the-decimal-number-of-its-header atoiOK(chunkSizeStr) && chunkSize == atoiVal(chunkSizeStr) && 0 <= chunkSize && arg1 == d[cursor:cursor+chunkSize]
 //@   loop 1 invariant 0 <= cursor && cursor <= len(d)
 //@   loop 1 invariant #provenance blocksOf(joined, d, cursor)
